@@ -15,7 +15,7 @@ RULE = (
     "iteration checked + distinct constructor power values"
 )
 REQUIRED = {"iter_memoryless": 300, "iter_first_with_memory": 30, "iter_convex": 300, "constructor_refused": 10, "constructor_accepted": 10,
-            "burn_in_len_checks": 50, "reruns_of_same_algorithm_object": 5, "burn_in_len_grid_checks": 6000, "reconfigured_algorithm_objects": 5}
+            "burn_in_len_checks": 50, "reruns_of_same_algorithm_object": 5, "burn_in_len_grid_checks": 6000, "reconfigured_algorithm_objects": 5, "fits_with_annealing": 10}
 ASSUMPTIONS = [
     "n_burn_in from a fraction: both int(frac*n_iter) in floating point and the exact rational floor are accepted (the statement does not pin "
     "float rounding of the product)",
@@ -68,6 +68,11 @@ def run_shard(spec, ctx):
                 if rng.random() < 0.5:
                     settings["n_burn_in_iter_frac"] = float(rng.choice([0.3, 0.5, 0.9]))
             allowed = {nb}
+        if (spec["k"] + i) % 3 == 2:
+            # the schedule of the statistics does not depend on the temperature: tempered chains whose annealing outlasts (or not) the memory-less phase
+            settings["annealing"] = {"do_annealing": True, "initial_temperature": float(rng.choice([3.0, 10.0])), "n_plateau": int(rng.integers(2, 6)),
+                                     "n_iter": None, "n_iter_frac": float(rng.choice([0.3, 0.6, 0.95, 1.0]))}
+            ctx.count("fits_with_annealing")
         events = kind == "joint"
         case = {"index": i, "model": list(map(str, g)), "settings": {k: v for k, v in settings.items() if k != "seed"}}
         try:
